@@ -66,6 +66,114 @@ def inst_recv_set(cx, iid):
 
 
 
+# --- time units ---------------------------------------------------------------------------------------
+# The rate computer keeps the round-trip time twice: rtt_s (f64 seconds, what RFC 5348's formulas take) and
+# rtt_ms (u64 milliseconds, what is compared with the step clock).  Which parameter is which unit is read
+# off the parameter names of the crate's own helpers; conversions exist only as ms_to_s / s_to_ms.
+SECONDS_PARAMS = {  # callee -> index (into the MIR argument list) of the parameter that is a time in seconds
+    "send_rate::eval_tcp_throughput": 0,
+    "send_rate::eval_tcp_throughput_inv": 0,
+    "send_rate::compute_initial_send_rate": 0,
+    "send_rate::compute_initial_loss_send_rate": 0,
+    "SendRateComp::update_rto": 1,
+    "SendRateComp::update_rtt": 1,
+    "send_rate::s_to_ms": 0,
+}
+MS_PARAMS = {
+    "send_rate::ms_to_s": 0,
+    "RecvRateSet::rate_limited_update": 3,
+}
+
+
+def _unit(e, own_sec_args=(), own_ms_args=()):
+    """'s' / 'ms' / None (unknown or dimensionless) for an expression, from the crate's own naming"""
+    k = e[0]
+    sh = show(e)
+    if k == "arg":
+        if e[1] in own_sec_args:
+            return "s"
+        if e[1] in own_ms_args:
+            return "ms"
+        return None
+    if k == "proj":
+        last = [el for el in e[2] if isinstance(el, str)]
+        names = []
+        for i_, el in enumerate(last):
+            if el.startswith("@") or el.startswith("["):
+                continue
+            if el.isdigit() and i_ and last[i_ - 1].startswith("@"):
+                continue  # the payload of an enum variant (x@Some.0) has the unit of x
+            names.append(el)
+        if names and names[-1] == "rtt_s":
+            return "s"
+        if names and names[-1] in ("rtt_ms", "rto_ms"):
+            return "ms"
+        if e[1][0] == "call" and e[1][1].endswith("update_rtt") and names:
+            return {"0": "s", "1": "ms"}.get(names[-1])
+        return None
+    if k == "call":
+        short = e[1]
+        if short.endswith("ms_to_s") or short.endswith("update_rto"):
+            return "s"
+        if short.endswith("s_to_ms"):
+            return "ms"
+        if re.match(r"Option::(unwrap|unwrap_or|unwrap_or_default|expect)$", short) and e[2]:
+            return _unit(e[2][0], own_sec_args, own_ms_args)
+        if re.match(r"(f64|u64|Ord)::(max|min)$", short) and e[2]:
+            us = {_unit(a, own_sec_args, own_ms_args) for a in e[2]} - {None}
+            return us.pop() if len(us) == 1 else None
+        return None
+    if k == "cast":
+        return _unit(e[2], own_sec_args, own_ms_args)  # a numeric cast keeps the unit
+    if k == "bin":
+        ua, ub = _unit(e[2], own_sec_args, own_ms_args), _unit(e[3], own_sec_args, own_ms_args)
+        op = e[1].lower()
+        if op in ("mul", "div") and (ua is None or ub is None):
+            # scaling by a dimensionless factor keeps the unit (4*R in the RTO); the analysis is dimensional:
+            # it cannot see that a factor is 1000, only that a value of one unit is used as the other
+            return (ua or ub) if not (op == "div" and ua is None) else None
+        if op == "div" and ua == ub:
+            return None
+        if op in ("add", "sub") or op.startswith("add") or op.startswith("sub"):
+            if ua and ub and ua != ub:
+                return "mixed"
+            return ua or ub
+        return None
+    if k == "un":
+        return _unit(e[2], own_sec_args, own_ms_args)
+    return None
+
+
+def inst_time_units(cx, iid):
+    R = cx.R
+    with cx.instance(iid, "T6 KIND (units of time)", "every RTT handed to the RFC 5348 formulas is a seconds value (rtt_s, update_rtt(..).0, ms_to_s(..)), "
+                     "every RTT compared with the clock a milliseconds value; the two are converted only by ms_to_s / s_to_ms", floor=8) as inst:
+        for b in R.all_bodies():
+            if "half_connection::send_rate" not in b.path or "::tests::" in b.path:
+                continue
+            short = R.short(b.path)
+            own_s = tuple(i + 1 for f, i in SECONDS_PARAMS.items() if short.endswith(f) for _ in (0,))
+            own_ms = tuple(i + 1 for f, i in MS_PARAMS.items() if short.endswith(f) for _ in (0,))
+            for loc, t in b.calls():
+                fn = t.get("fn")
+                if not fn:
+                    continue
+                fs = R.short(fn)
+                for table, wantu in ((SECONDS_PARAMS, "s"), (MS_PARAMS, "ms")):
+                    for f, idx in table.items():
+                        if not fs.endswith(f) or idx >= len(t["args"]):
+                            continue
+                        ex = b.operand_expr(t["args"][idx])
+                        u = _unit(ex, own_s, own_ms)
+                        inst.site(b, loc, "%s(.. %s ..): %s" % (f.split("::")[-1], show(ex), u or "unitless/unknown"))
+                        if u is not None and u != wantu:
+                            inst.violation(b.path, "%s <- %s" % (f.split("::")[-1], re.sub(r"var\d+", "var", show(ex))),
+                                           "%s takes a time in %s here, but is handed `%s`, which is %s: seconds and milliseconds are converted only by ms_to_s / s_to_ms"
+                                           % (f.split("::")[-1], {"s": "seconds", "ms": "milliseconds"}[wantu], show(ex),
+                                              {"s": "a seconds value", "ms": "a milliseconds value"}.get(u, "a sum of seconds and milliseconds")),
+                                           at=b.span_at(loc))
+
+
 def run(cx):
     R = cx.R
     with cx.instance("C14.a", "T7 SHAPE (AC-normal form)", "TCP throughput equation, RTT filter, RTO and initial rates are the RFC 5348 expressions", floor=6) as inst:
@@ -81,7 +189,8 @@ def run(cx):
         want[SR + "compute_initial_loss_send_rate"] = want[SR + "compute_initial_loss_send_rate"].replace("736", str(mss // 2))
         for fn, w in want.items():
             b = R.body(fn)
-            got = acnf(b.local_expr(0))
+            from rules import strip_result_cast
+            got = acnf(strip_result_cast(b.local_expr(0)))  # the functions return u32: the final (saturating) conversion is the return type
             inst.site(b, None, "%s = %s" % (fn.split("::")[-1], got))
             if got != w:
                 inst.violation(b.path, "formula", "%s computes `%s`; RFC 5348 transcription expected `%s`" % (fn.split("::")[-1], got, w))
@@ -272,6 +381,7 @@ def run(cx):
             inst.site(b, Loc(L["header"], 0), "%s: %s" % (info.cls, info.desc[:80]))
             if not info.ok:
                 inst.violation(b.path, "loop:" + info.desc[:90], "the bisection loop has no recognised termination variant: %s" % (info.why or "unbounded `loop`"), at=info.at)
+    inst_time_units(cx, "C14.j")
 
 
 SELFTEST = [
